@@ -772,6 +772,62 @@ def validate_generated_code(rep, lg, per_rule, rnd, nmut):
             if not ok:
                 bad.append(("sentence of rule %s variant %r rejected by the generated parser code" % (lg.rule_names[r], _symnames(lg, path)), sent))
             sentences.append(sent)
+    # FIRST-set coverage: the generated code guards every optional / repeated / alternative sub-rule with a test of the next
+    # token against the set of tokens the sub-rule can start with.  For every place where a rule q refers to a rule r and every
+    # token t that r can start with, one sentence goes through that place with r's part starting with t.
+    nullable = cfg.CFG(NG, [], "n").nullable
+    firstexp = {r: {} for r in NG}
+    changed = True
+    while changed:
+        changed = False
+        for r, m in NG.items():
+            # states reachable from the start through nullable rule references only
+            reach = {m.start}
+            work = [m.start]
+            while work:
+                s_ = work.pop()
+                for v, b in out_edges[r].get(s_, ()):
+                    if v >= nfa.RULE_BASE and (v - nfa.RULE_BASE) in nullable and b not in reach:
+                        reach.add(b)
+                        work.append(b)
+            for s_ in reach:
+                for v, b in out_edges[r].get(s_, ()):
+                    tail = shortest(r, b, m.accept)
+                    if tail is None:
+                        continue
+                    tail = expand(tail)
+                    heads = {v: [v]} if v < nfa.RULE_BASE else firstexp[v - nfa.RULE_BASE]
+                    for t, h in list(heads.items()):
+                        cand = h + tail
+                        if t not in firstexp[r] or len(cand) < len(firstexp[r][t]):
+                            firstexp[r][t] = cand
+                            changed = True
+    nfirst = 0
+    for q, m in NG.items():
+        if q not in ctx:
+            continue
+        for a, l, b in m.edges:
+            for v in l[1]:
+                if v < nfa.RULE_BASE:
+                    continue
+                r = v - nfa.RULE_BASE
+                pre = shortest(q, m.start, {a})
+                post = shortest(q, b, m.accept)
+                if pre is None or post is None:
+                    continue
+                for t, body in sorted(firstexp[r].items()):
+                    sent = ctx[q][0] + expand(pre) + body + expand(post) + ctx[q][1]
+                    if not sent or sent[-1] != 0 or 0 in sent[:-1] or len(sent) > 70:
+                        continue
+                    if not cfg.concrete_derives(NG, start, sent):
+                        continue        # (left-recursive contexts: the assembled sequence is not a sentence)
+                    ok, errs = lg.real_parse_tokens(sent[:-1])
+                    done += 1
+                    nfirst += 1
+                    if not ok:
+                        bad.append(("sentence in which %s (inside %s) starts with %s is rejected by the generated parser code"
+                                    % (lg.rule_names[r], lg.rule_names[q], lg.tok_names.get(t, t)), sent))
+    rep.extra["first_set_coverage_sentences"] = nfirst
     rnd.shuffle(sentences)
     ntok = len(lg.token_names)
     skip = lg.skip_token_types()
@@ -814,6 +870,21 @@ def _allsat_regions(lg, tier):
         ("for-loop header", header + [T[x] for x in ("FOR", "TYPE_INT", "NAME", "IN")],
          [T[x] for x in ("INT", "COLON", "LBRAC", "RBRAC", "LSQBRAC", "RSQBRAC", "COMMA", "PLUS", "NAME")], (1, 6 if tier == "quick" else 7),
          [T[x] for x in ("NEWLINE", "TAB", "NAME", "APPLY", "INT", "NEWLINE")] + [0]),
+        # every decision of `arguments` / `kwarg` / `vallist` (optional comma, optional list, signed first elements)
+        ("keyword arguments", header + [T["NAME"], T["LBRAC"]],
+         [T[x] for x in ("NAME", "ASSIGN", "LSQBRAC", "RSQBRAC", "COMMA", "MINUS", "INT", "STR", "BOOL")], (0, 6 if tier == "quick" else 7),
+         [T[x] for x in ("RBRAC", "APPLY", "INT", "NEWLINE")] + [0]),
+        ("target options", [T[x] for x in ("PROGNAME", "NAME", "NEWLINE", "VERSION", "FLOAT", "NEWLINE", "TARGET", "NAME", "LBRAC")],
+         [T[x] for x in ("NAME", "ASSIGN", "LSQBRAC", "RSQBRAC", "COMMA", "PLUS", "FLOAT", "STR")], (0, 5 if tier == "quick" else 6),
+         [T[x] for x in ("RBRAC", "NEWLINE")] + [0]),
+        # expression alternatives: functions, array elements, parameters, powers, signs
+        ("expression", header + [T["NAME"], T["LBRAC"]],
+         [T[x] for x in ("INT", "NAME", "MINUS", "TIMES", "PWR", "LBRAC", "RBRAC", "LOG", "SIN", "LSQBRAC", "RSQBRAC", "PI", "REGREF")], (1, 5 if tier == "quick" else 6),
+         [T[x] for x in ("RBRAC", "APPLY", "INT", "NEWLINE")] + [0]),
+        # declarations: scalar / array, optional shape, rows
+        ("declaration", header,
+         [T[x] for x in ("TYPE_INT", "TYPE_ARRAY", "NAME", "ASSIGN", "INT", "LSQBRAC", "RSQBRAC", "COMMA", "NEWLINE", "TAB", "MINUS", "LBRACE", "RBRACE")], (4, 8 if tier == "quick" else 9),
+         [T["NEWLINE"], 0]),
     ]
 
 
